@@ -439,4 +439,7 @@ var spec = run.Spec[Case]{ID: "C15", Name: "dist", Gen: genCase, Prop: prop, Cla
 
 func TestPropDist(t *testing.T) { run.Generated(t, spec) }
 func TestRegress(t *testing.T)  { run.Regress(t, spec) }
-func TestReplay(t *testing.T)   { run.ReplayOne(t, spec) }
+func TestReplay(t *testing.T) {
+	run.ReplayOne(t, spec)
+	run.ReplayOne(t, bigSpec)
+}
